@@ -18,7 +18,7 @@
   C09's guard (the placed image box fits into `i32`; it also gives `W, H <= i32::MAX`, below which the
   `as i32` casts of `ImageRaw::pixel` do not wrap, see `EG.Glue.pixel_agree_needs_guard`).
 
-  -- [V] the colour <-> raw conversions `C::into()` / `C::from(raw)` on the way into the framebuffer and out of the image are the identity on raw values (C12's topic): carried by correspondence + oracle only
+  -- (closed) the colour <-> raw conversions `C::into()` / `C::from(raw)` on the way into the framebuffer and out of the image lose nothing: Props/C10/Colours.lean (into the framebuffer) and Props/C09/Colours.lean (out of the image), both from C12's round-trip theorems
   -- [V] that the real `Framebuffer::as_image()` hands the real `ImageRaw::draw` code the same bytes the two models share (Rust-level: `&self.data[0..BUFFER_SIZE]`): carried by correspondence (`img=` field of fb.hist) + oracle only
 -/
 import EG.Lemmas.GlueFbImage
